@@ -121,6 +121,18 @@ def _(c):
         ),
         on="any",
     )
+    # guarantee side of what a waiting operation relies on ("the containers themselves are never replaced", EZE above):
+    # the event callback completes listeners, it never takes a list or a listener out of the table -- removing a
+    # listener is its owner's job (done-callback / exit of wait_for_stack_status).  Stated on a listener that was
+    # already done before the event (done but still listed: its done-callback has not run yet), whatever the status.
+    c.ensures(
+        "guarantee.listener_lists_are_not_taken_out_by_the_event",
+        lambda self, s0, f0: implies(
+            f0 in old(self._stack_status_listeners[s0]) and old(fut_state(f0)) != 0,
+            f0 in self._stack_status_listeners[s0],
+        ),
+        on="any",
+    )
     c.modifies("self._stack_status_listeners.*")
 
 
@@ -140,6 +152,18 @@ def _event_op(qualname, status, command, timeout_of, refused_exc):
         c.raises("not_running", EzspError)
         c.raises("no_protocol", AttributeError)
         c.raises("cancelled", asyncio.CancelledError)
+        c.setup = _one_listed_future
+        # guarantee side of what *another* waiting operation relies on: an operation only ever unregisters its own
+        # listener -- a listener of any status that was registered before this operation started is still registered
+        # when it ends (by any exit), unless its own owner took it out meanwhile (then it is done)
+        c.ensures(
+            "guarantee.listeners_of_other_operations_stay_registered",
+            lambda self, s0, f0: implies(
+                f0 in old(self._stack_status_listeners[s0]) and fut_state(f0) == 0,
+                f0 in self._stack_status_listeners[s0],
+            ),
+            on="any",
+        )
         # "they observe that event whenever it arrives after the command was issued - even before the
         #  command's own response": the listener is registered when the command is issued
         c.at_effect(
